@@ -214,6 +214,8 @@ class RigTaskGroup:
         async def put(item):
             inst["puts"].append(item)      # what the server hands to this application instance, in order
             await q.put(item)
+            if getattr(self, "worker", None) == "trio":
+                await Checkpoint()         # trio's MemorySendChannel.send always yields once the item is in the channel
 
         return put
 
@@ -275,6 +277,7 @@ class ProtoRig:
         self.config = config
         self.context = RigContext(self.driver, max_requests)
         self.tg = RigTaskGroup(self.driver)
+        self.tg.worker = worker
         self.transport = Transport()
         self.worker = worker
         self.events: list = []          # ("Updated", idle) / ("Closed",) in order, with the bytes written so far
@@ -310,6 +313,8 @@ class ProtoRig:
             if self.worker == "trio":
                 await self.protocol.handle(Closed())
         elif isinstance(event, Updated):
+            if self.worker == "trio":
+                await Checkpoint()          # trio's TaskWrapper.restart/stop take a trio.Lock: acquiring it always yields
             self.idle = event.idle
             self.events.append(("Updated", event.idle, len(self.transport.written)))
 
